@@ -85,9 +85,27 @@ def run_solves(spec, tier, seed):
     for m, orig in saved:
         m.figure_tax = wrap(orig, m.__name__.split('.')[-1])
     try:
-        for fam in ('F0', 'F1', 'F2', 'F6', 'F9'):
-            for p in scen.personas(seed, year, fam, spec['n']):
-                scen.solve_persona(p)
+        todo = [(fam, p) for fam in ('F0', 'F1', 'F2', 'F6', 'F9') for p in scen.personas(seed, year, fam, spec['n'])]
+        # taxable incomes with cents: in the last dollar of a table row, just above 100,000, in every bracket
+        rng = rng_for('C07solve', seed, spec)
+        for j in range(spec['n']):
+            for code in ('S', 'MFJ', 'HOH'):
+                sd = st.amount('standard_deduction', year, code)
+                for taxable in (rng.choice(range(3000, 99950, 50)) + 49.75, 100000.0 + round(rng.uniform(0.01, 900), 2), round(10 ** rng.uniform(5.05, 5.7), 2)):
+                    todo.append(('plain', scen.plain_persona(year, code, round(taxable + sd, 2), key=f'c07:{j}', deps_odc=1 if code == 'HOH' else 0)))
+        for fam, p in todo:
+            out = scen.solve_persona(p)
+            if out.exc is not None or out.ret is not True:
+                continue
+            sol = scen.typed_solution(out)
+            code = st.STATUS_BY_MEMBER.get(getattr(sol.get('1040.filing_status'), 'name', None))
+            if code is None or '1040.15' not in sol or '1040.16' not in sol or any(k.startswith('1040_qualdiv_capgain_tax_wkst.') for k in sol):
+                continue
+            kind, ref = st.reference_tax(year, code, F(str(sol['1040.15'])))
+            res.count('line16_vs_schedule')
+            if abs(F(str(sol['1040.16'])) - ref) > F(1, 100):
+                res.violation(f'C07|{year}|line-16-not-the-schedule-tax-of-line-15|{code}', f'{year} {fam} {code}: taxable income (line 15) {sol["1040.15"]} has schedule tax {float(ref)} but line 16 is {sol["1040.16"]}',
+                              {'engine': 'scen', 'persona': p.describe(), 'shard': spec})
     finally:
         for m, orig in saved:
             m.figure_tax = orig
